@@ -125,6 +125,13 @@ def replay_file(ck, path, cmp=("value",)):
         s["cmp"] = case["cmp"]
     if case.get("mode"):
         s["mode"] = case["mode"]
+    if str(case.get("via", "")).startswith("loop"):
+        import sess as _sess
+        for v in _sess.judge_via_loop([s], cmp=("report",), ck=ck, part="replay through the read-eval loop", oneline=case["via"] == "loop-oneline"):
+            ck.cov["evaluations"] += 1
+            if v.status != "accept":
+                ck.violation("through the read-eval loop: %s" % json.dumps(v.info)[:600], {"session": v.session, "texts": v.texts, "via": case["via"]})
+        return ck.finish()
     if case.get("scope_diff"):
         import scopecheck
         for desc, c in scopecheck.validate(ck, [s], "replay: the front end's tree against CalcScope.tla"):
